@@ -163,11 +163,15 @@ func (p *C15) Gen(seed uint64, i int, tier string) *scen.Scenario {
 			kind := scen.Pick(r, []string{"print", "println", "printf", "write"})
 			t := nt()
 			msg := "b" + t
-			switch r.Intn(4) {
+			switch r.Intn(8) {
 			case 0:
 				msg += "\n"
 			case 1:
 				msg += " two words"
+			case 2:
+				msg += scen.Pick(r, []string{"\r", "\r\n", "\n\n", "\n\n\n", " ", "\t", "\r\r\n", " \n"})
+			case 3:
+				msg = scen.Pick(r, []string{"\r", " ", "a\rb"}) + msg + scen.Pick(r, []string{"\r\n", "\r", ""})
 			}
 			sc.Setup = append(sc.Setup, scen.Op{Op: "bridge_print", L: k + 1, Kind: kind, Msg: msg, Tok: t, Probe: true, Lvl: S})
 		}
